@@ -20,6 +20,9 @@ EXPLANATION = (
     "element written under another tag (use -> g) must not carry geometry keys of its own that the reader would hand down "
     "to children. R20.6 dispatch order: no isinstance branch is shadowed by an earlier branch for a base class. Not "
     "decided: well-formedness for arbitrary `values` keys; geometric equality within the six-decimal matrix precision."
+    " R20.7: the writer leaves a zero rect radius out and the reader takes a missing radius for 'auto' (the"
+    ' copy of the other one); this is the same rectangle only because validation never leaves exactly one'
+    " radius at zero, so C06's corner table runs here as well."
 )
 TECHNIQUE = (
     "static analysis (no execution): writer/reader attribute-key agreement tables; reader-default vs writer skip rule; def-use roles for the inverse-viewport composition order and paint emission"
